@@ -82,7 +82,7 @@ M = [
  ("c18-errors-not-consulted-for-methods", "internal/base/conc_statement.go", "\t\t\t\t\t_, e := meth.Evaluate(dc, Vars)\n\t\t\t\t\tif e != nil {", "\t\t\t\t\t_, e := meth.Evaluate(dc, Vars)\n\t\t\t\t\tif e != nil && false {", ["C18", "C09"], 1),
  # --- C19
  ("c19-addresult-lock-removed", "engine/gengine.go", "\tg.lock.Lock()\n\tdefer g.lock.Unlock()\n\tg.returnResult[name] = returnResult", "\tg.returnResult[name] = returnResult", ["C19"], 1),
- ("c19-lockvars-removed-on-write", "context/data_context.go", "\t\t\t//in RuleEntity\n\t\t\tdc.lockVars.Lock()\n\t\t\tVars[variable] = newValue\n\t\t\tdc.lockVars.Unlock()", "\t\t\t//in RuleEntity\n\t\t\tVars[variable] = newValue", ["C19"], 1),
+ ("c19-lockvars-removed-on-write", "context/data_context.go", "\t\t\tdc.lockVars.Lock()\n\t\t\tVars[variable] = newValue\n\t\t\tdc.lockVars.Unlock()", "\t\t\tVars[variable] = newValue", ["C19"], 1),
  ("c19-execmodel-unsynchronised", "engine/gengine_pool.go", "func (gp *GenginePool) GetExecModel() int {\n\tgp.kcLock.RLock()\n\tdefer gp.kcLock.RUnlock()\n\treturn gp.execModel", "func (gp *GenginePool) GetExecModel() int {\n\treturn gp.execModel", ["C19"], 1),
  # --- C20
  ("c20-mathexpr-stop-line", "internal/iparser/gengine_parser_listener.go", "\texpr := g.Stack.Pop().(*base.MathExpression)\n\n\texpr.Code = ctx.GetText()\n\texpr.LineNum = ctx.GetStart().GetLine()", "\texpr := g.Stack.Pop().(*base.MathExpression)\n\n\texpr.Code = ctx.GetText()\n\texpr.LineNum = ctx.GetStop().GetLine() - 1", ["C20"], 1),
